@@ -234,7 +234,9 @@ func (i *Index) SkipUnless(patterns []string) {
 	for _, e := range i.Entries {
 		var include bool
 		for _, pattern := range patterns {
-			if strings.HasPrefix(e.Name, pattern) {
+			// a pattern names a directory: match whole path components, so
+			// that "a" selects "a/x" but not its sibling "ab/x"
+			if e.Name == pattern || strings.HasPrefix(e.Name, pattern+"/") {
 				include = true
 				break
 			}
